@@ -185,3 +185,16 @@ ROUND7 = {
 }
 for _k, _v in ROUND7.items():
     ADDENDA[_k] = ADDENDA.get(_k, "") + _v
+
+# Rules added after round 7 of the seeded changes (stale state across a lifecycle; DESIGN.md §10.1 "Seventh round").
+ROUND7B = {
+    "C01": " Round 7: no closure works on a captured alias of a state map (the timeout closure reloads the pending map from the feature).",
+    "C02": " Round 7: the store applies an update by exactly one call of Updater.UpdateList.",
+    "C04": " Round 7: the store applies an update by exactly one call of Updater.UpdateList (no separately persisted delete stage).",
+    "C06": " Round 7: after the feature list of a re-announced entity was wiped, every feature added is the one object built from the announcement.",
+    "C10": " Round 7: no closure works on a captured alias of a state map (a timer armed before the teardown cannot find its entry in an unlinked per-peer map).",
+    "C11": " Round 7: single application of an update (a refused update leaves no persisted first stage behind).",
+    "C12": " Round 7: no closure works on a captured alias of a state map.",
+}
+for _k, _v in ROUND7B.items():
+    ADDENDA[_k] = ADDENDA.get(_k, "") + _v
